@@ -36,14 +36,21 @@ fn one_target<T: Elem>(ctx: &mut Ctx, t: Target<T>) {
             vals::nonzero(rng, |r| vals::small_int::<T>(r, 3))
         }
     };
-    let pool_a: Vec<T> = (0..top).map(|_| gen(&mut rng)).collect();
-    let pool_b: Vec<T> = (0..top).map(|_| gen(&mut rng)).collect();
-    let value = gen(&mut rng);
+    let rounds = tier.pick(1, 3);
+    let mut pool_a: Vec<T> = (0..top).map(|_| gen(&mut rng)).collect();
+    let mut pool_b: Vec<T> = (0..top).map(|_| gen(&mut rng)).collect();
+    let mut value = gen(&mut rng);
     let mut run = Run::new(ctx, t, top);
     run.opts = CheckOpts { values: false, skip_float_reductions: false, panics_ok: true };
     let two = kind_uses_b(t.r.kind());
     let _ = Kind::Map2;
     let seed_k = rng.usize_below(nk);
+    for round in 0..rounds {
+    if round > 0 {
+        pool_a = (0..top).map(|_| gen(&mut rng)).collect();
+        pool_b = (0..top).map(|_| gen(&mut rng)).collect();
+        value = gen(&mut rng);
+    }
     for len in 0..=top {
         if len % 16 == 0 && run.ctx.out_of_time() {
             break;
@@ -78,6 +85,7 @@ fn one_target<T: Elem>(ctx: &mut Ctx, t: Target<T>) {
             let (ar, opts) = (&mut run.ar, run.opts);
             run.ctx.run_case(&c, len > 0, &mut |c| check_call(c, ar, opts));
         }
+    }
     }
     if run.ctx.p.samples.is_empty() {
         let mut c: VecCall<T> = t.call().with_data(value, pool_a[..3.min(top)].to_vec(), if two { pool_b[..3.min(top)].to_vec() } else { Vec::new() });
